@@ -92,5 +92,8 @@ Definition go_contains_any (s chars : list N) : bool :=
 Definition go_count_byte (s : list N) (c : N) : Z :=
   Z.of_nat (length (filter (N.eqb c) s)).
 
+(* a map the function only probes: the list of its keys; `_, ok := m[k]` and len(m) *)
+Definition go_map_has (m : list Z) (k : Z) : bool := existsb (Z.eqb k) m.
+
 (* fixed-width unsigned conversion *)
 Definition go_wrap (bits : Z) (x : Z) : Z := Z.modulo x (Z.pow 2 bits).
